@@ -60,11 +60,13 @@ def params_for(rng, test):
 
 
 def gen_typed(rng, max_ctx=3):
-    n_ctx = rng.choice([1, 1, 1, 2, 3]) if max_ctx > 1 else 1
+    # a quarter of the configurations can be written in ALL four layouts (one context, no window / region, one stream)
+    bare = rng.random() < 0.25
+    n_ctx = 1 if bare else (rng.choice([1, 1, 1, 2, 3]) if max_ctx > 1 else 1)
     ctxs = []
     for ci in range(n_ctx):
         w = None
-        r = rng.random()
+        r = 1.0 if bare else rng.random()
         if r < 0.35:
             w = {"starting": f"2020-0{ci + 1}-01T00:00:00", "ending": f"2020-0{ci + 2}-01T00:00:00"}
         elif r < 0.45:
@@ -72,7 +74,7 @@ def gen_typed(rng, max_ctx=3):
         elif r < 0.55:
             w = {"ending": f"2021-0{ci + 1}-01T12:30:00"}
         region = None
-        r = rng.random()
+        r = 1.0 if bare else rng.random()
         if r < 0.15:
             region = {"type": "Feature", "geometry": {"type": "Point", "coordinates": [-72.0 + ci, 41.0]}}
         elif r < 0.3:
@@ -81,14 +83,18 @@ def gen_typed(rng, max_ctx=3):
         elif r < 0.36:
             region = {"type": "nothing", "note": ci}
         streams = []
-        for sid in rng.sample(["v1", "v2", "sea_temp", "salinity", "x"], rng.randint(1, 3)):
+        for sid in rng.sample(["v1", "v2", "sea_temp", "salinity", "x"], 1 if bare else rng.randint(1, 3)):
             mods = []
             names = rng.sample(list(REAL), rng.randint(1, 2))
+            if bare and rng.random() < 0.6 and "qartod" not in names:
+                names[0] = "qartod"
             if rng.random() < 0.25:
                 names.insert(rng.randrange(len(names) + 1), rng.choice(UNKNOWN_MODULES))
             for m in names:
                 pool = REAL.get(m, ["gross_range_test", "anything"])
                 tests = rng.sample(pool, rng.randint(1, min(3, len(pool))))
+                if bare and m == "qartod" and rng.random() < 0.6 and "climatology_test" not in tests:
+                    tests[rng.randrange(len(tests))] = "climatology_test"      # a parameter that is a list of mappings
                 if rng.random() < 0.25:
                     tests.insert(rng.randrange(len(tests) + 1), rng.choice(UNKNOWN_TESTS))
                 mods.append({"name": m, "tests": [{"name": t, "kwargs": params_for(rng, t)} for t in tests]})
